@@ -124,6 +124,13 @@ CHECKS.update({
             "Trusted: TLC, the class abstraction of harness/lib.py, unicodedata for the digit blocks. The statement's corpus is represented by generated strings per language.",
             "DESIGN.md 4 C18"),
 })
+CHECKS.update({
+    "C17": ("exploration",
+            "model-guided exploration of search_dates over texts assembled from every language's own vocabulary, numeric dates, filler prose and mutated punctuation; every recorded call judged by TLC (T_C17.tla); the chunking loop of translate_search with its lookahead (Search.tla / P_C17.tla) model-checked with TLC for index safety",
+            "TLC explores every abstract token sequence up to length 3 (thorough 4) x locale classes and checks that the lookahead never indexes beyond the sentence (the pinned loop is run too and must be refuted). Quick runs about 8k real calls: each of the 205 languages explicitly with 30 texts (every bare date word of the language as a text of its own, then assembled texts up to 300 characters with a date word at the very end of a sentence in half of them), 1.5k autodetected / multi-language texts and 300 arbitrary strings, with and without RELATIVE_BASE and add_detected_language; TLC checks: no exception, None or a non-empty list of (substring, datetime) pairs, substrings non-blank, found in the text up to whitespace, in text order, one reported language among the requested ones.",
+            "The quantifier over all texts is explored, not exhausted. Positions are computed by the projection (whitespace-insensitive, case-insensitive search).",
+            "DESIGN.md 4 C17"),
+})
 NOT_YET = {}
 
 def main():
